@@ -99,7 +99,10 @@ class BleController(AbstractController):
             discovery = BleDiscovery(self, device, data, advertisement_data)
             logger.debug("BLE device for %s found, fulfilling futures", data.id)
             for future in futures:
-                future.set_result(discovery)
+                # A waiter that timed out or was cancelled in this very loop
+                # iteration is still in the list with its future cancelled.
+                if not future.done():
+                    future.set_result(discovery)
             futures.clear()
 
         if old_discovery:
